@@ -98,7 +98,7 @@ def project_scen(impl):
 class C18(Prop):
     id = "C18"
     thorough_rounds = 2   # thorough tier: this many independently seeded rounds of the random generators (duplicates dropped)
-    modules = ["H3.Props.C18"]
+    modules = ["H3.Props.C18", "H3.Lemmas.GenAgreeDgSend"]
     engines = ["dgram", "wt"]
     design_ref = "DESIGN.md section 7, C18"
     level_text = ("Lean theorems over a model of Datagram::{new,encode,decode} and EncodedDatagram's Buf impl: wire bytes = "
@@ -110,8 +110,9 @@ class C18(Prop):
                   "remaining = header + all chunks, every chunk/advance pattern and the chunk-by-chunk read to the end yield "
                   "varint(S/4) ++ the flattened payload); the error arms of send_datagram (C18_send_error_classes: NotAvailable / TooLarge "
                   "go to the caller and are not connection errors, a transport connection error is stored as the connection's error; "
-                  "C18_send_error_is_outcome_partial + C18_D18b_witness: the sender names it as the connection does except for the idle "
-                  "timeout, finding D-18b); `dgram scen`: the datagram handles of a plain CLIENT and a plain server connection "
+                  "C18_send_error_is_outcome: whatever the error cell holds, the sender answers convert_to_connection_error of the cell's "
+                  "winner, i.e. what the driver and every other handle report - D-18b / D-05g repaired; the arm is read from the tree, "
+                  "Gen/DgSendArms + Lemmas/GenAgreeDgSend); `dgram scen`: the datagram handles of a plain CLIENT and a plain server connection "
                   "(h3-datagram client.rs / server.rs) over SimQuic under every answer the transport may give")
     level_note = ("trusted: Lean kernel + 3 standard axioms; model tied to the code by differential run (k in 0..2^16 exhaustively, "
                   "form boundaries, payloads 0..1500, consumption patterns, all byte strings of length 0..2 for decode); payload "
@@ -219,23 +220,6 @@ class C18(Prop):
             from props.c19 import PROP as C19P
             return C19P.project(line, impl)
         return impl
-
-    def finding_applies(self, line, impl, model, spec, finding):
-        """D-18b waives a line only if naming the idle timeout the way the connection does, in the answers of
-        send_datagram and nowhere else, is all that separates the implementation from the specification"""
-        if finding.get("key") != "site:D-18b":
-            return True
-        import vlib
-        if line.startswith("wt "):
-            # the judge's verdict names the first token it refuses and what it expected there
-            m = re.match(r"BAD@(\d+):expected:(\S+) (.*)$", impl)
-            if not m:
-                return False
-            obs = m.group(3).split()
-            k = int(m.group(1))
-            return m.group(2) == "conn.dgs=err:conn:timeout" and k < len(obs) and obs[k] == "conn.dgs=err:conn:remote:timeout"
-        fixed = " ".join(t.replace("err:conn:remote:timeout", "err:conn:timeout") if ".dgs=" in t else t for t in impl.split())
-        return fixed != impl and vlib.spec_match(spec, fixed)
 
     def klass(self, line, impl):
         w = line.split()
